@@ -40,9 +40,12 @@ def cases(draw):
     case = {"n": n, "schedule": schedule, "form": draw(st.sampled_from(["mass_p1", "stiff_p1_interval"]))}
     if "impatient" not in case and case["form"] == "mass_p1" and strategies_prob(draw, 0.3):
         # two *different* requests (same form, part='full' and part='diagonal') race on one cache directory: each must get its own module
-        case["forms"] = [draw(st.sampled_from(["mass_p1", "mass_p1_diag"])) for _ in range(n)]
+        # ... or the same form for different scalar types
+        pool = draw(st.sampled_from([["mass_p1", "mass_p1_diag"], ["mass_p1", "mass_p1@complex128", "mass_p1@float32", "mass_p1@complex64"],
+                                     ["mass_p1_diag", "mass_p1_diag@complex128", "mass_p1@complex128"]]))
+        case["forms"] = [draw(st.sampled_from(pool)) for _ in range(n)]
         if len(set(case["forms"])) == 1:
-            case["forms"][-1] = "mass_p1_diag" if case["forms"][0] == "mass_p1" else "mass_p1"
+            case["forms"][-1] = next(f for f in pool if f != case["forms"][0])
         return case
     if n == 3 and draw(st.booleans()):
         # an impatient request: process 1 gives up after 1-3 polls while process 0 (k sync points into its build) still holds the
@@ -145,7 +148,7 @@ def evaluate_mixed(case, d, hist, kids, classes, viol, sample, h):
         if r["status"] != "ok":
             return viol("exception", f"process {kid.idx} (request {case['forms'][kid.idx]}) raised {r.get('exc')}: {r.get('msg')}")
         if not r["correct"]:
-            return viol("wrong-kernel", f"process {kid.idx} asked for {case['forms'][kid.idx]} but its kernel computes {r['total']} (another request's module)")
+            return viol("wrong-kernel", f"process {kid.idx} asked for {case['forms'][kid.idx]} but its kernel computes {r['total']} {r.get('note', '')} (another request's module)")
     if len(compilers) != len(distinct):
         return viol("compile-count", f"{len(compilers)} processes compiled for {len(distinct)} distinct requests {distinct}: {compilers}")
     for fn in distinct:
